@@ -22,6 +22,12 @@ pub fn lookup_verify<TC: Configuration>(
     akd_label: AkdLabel,
     proof: LookupProof,
 ) -> Result<VerifyResult, VerificationError> {
+    if proof.version == 0 {
+        return Err(VerificationError::LookupProof(alloc::format!(
+            "Proof version should be non-zero"
+        )));
+    }
+
     if proof.version > current_epoch {
         return Err(VerificationError::LookupProof(alloc::format!(
             "Proof version {} is greater than current epoch {}",
